@@ -921,9 +921,28 @@ impl<'a> G<'a> {
                 }
             }
         }
-        match self.rng.below(7) {
+        match self.rng.below(9) {
             0 => {
                 self.op("cn_eof".to_string());
+                self.op("cn_poll".to_string());
+            }
+            7 | 8 => {
+                // two GOAWAYs with the same last-stream-id: a graceful notice, then the real reason (code and
+                // debug data of the LAST one are what the connection reports)
+                let last: u32 = if self.rng.chance(1, 2) { 0x7fff_ffff } else { 2 * self.rng.below(8) as u32 + 1 };
+                let mut g1 = last.to_be_bytes().to_vec();
+                g1.extend_from_slice(&[0, 0, 0, 0]);
+                self.peer(wire(7, 0, 0, &g1));
+                if self.rng.chance(1, 2) {
+                    self.op("cn_poll".to_string());
+                }
+                let mut g2 = last.to_be_bytes().to_vec();
+                g2.extend_from_slice(&[0, 0, 0, 11]);
+                g2.extend_from_slice(b"too_many_pings");
+                self.peer(wire(7, 0, 0, &g2));
+                self.op("cn_poll".to_string());
+                self.op("cn_eof".to_string());
+                self.op("cn_poll".to_string());
                 self.op("cn_poll".to_string());
             }
             1 => {
